@@ -118,36 +118,49 @@ func TestTrace(t *testing.T) {
 		perClass[c]++
 		emit(s[:])
 	}
-	// concurrent logins: many goroutines ask the same authenticator for server ids at once;
-	// every (digest, id) pair is judged like the sequential ones
+	// concurrent logins: many goroutines ask the same authenticator for server ids at once, in
+	// tight loops (results are collected per goroutine and judged afterwards like the others)
 	{
+		type pair struct {
+			secret []byte
+			id     string
+		}
 		var wg sync.WaitGroup
-		var cmu sync.Mutex
-		workers, per := 8, tracefmt.EnvInt("VERIF_CONC", 400)
+		workers, per := 32, tracefmt.EnvInt("VERIF_CONC", 600)
+		results := make([][]pair, workers)
+		start := make(chan struct{})
 		for wkr := 0; wkr < workers; wkr++ {
+			wkr := wkr
 			seed := rng.Int63()
 			wg.Add(1)
 			go func() {
 				defer wg.Done()
 				lr := mrand.New(mrand.NewSource(seed))
+				out := make([]pair, 0, per)
+				<-start
 				for i := 0; i < per; i++ {
 					s := make([]byte, 16)
 					lr.Read(s)
-					d := digest(s)
 					id, err := a.GenerateServerID(s)
 					if err != nil {
 						t.Errorf("GenerateServerID: %v", err)
 						return
 					}
-					cmu.Lock()
-					tw.Emit(tracefmt.Rec{"ev": "id", "digest": tracefmt.Bytes(d), "id": id, "concurrent": true})
-					st.Ids++
-					st.Classes[classify(d)]++
-					cmu.Unlock()
+					out = append(out, pair{s, id})
 				}
+				results[wkr] = out
 			}()
 		}
+		close(start)
 		wg.Wait()
+		for _, out := range results {
+			for _, p := range out {
+				d := digest(p.secret)
+				tw.Emit(tracefmt.Rec{"ev": "id", "digest": tracefmt.Bytes(d), "id": p.id, "concurrent": true})
+				st.Ids++
+				st.Classes[classify(d)]++
+			}
+		}
 	}
 	// the two's complement helper on every 1- and 2-byte input and crafted 20-byte carries
 	do := func(in []byte) {
